@@ -1,13 +1,13 @@
 (* C03 — Every committed transaction conserves resources: pinned statements.
    Model: RV.Model.C03_Ledger (vaults, buckets in flight, fee reserve, supplies; every operation
    mirrors the checked arithmetic of the resource blueprints and of finalize_fees_for_commit).
-   What is proved here is the fungible half at full strength (all op lists); for non-fungibles
-   the model is validated by correspondence and the direct oracle only: the id-set statement needs
-   the global "no id in two containers" invariant (IndexSet::extend silently drops duplicates),
-   which is not proved yet — see C03_step_supply for what is proved about their supplies. *)
+   Proved for all op lists: the fungible half (amounts) and the non-fungible half (id sets), the
+   latter with the global invariant NFInv (no id in two containers, held ids have a live data
+   entry, vault amount field = number of ids) which every accepted operation preserves — it is
+   needed because IndexSet::extend / index insert silently drop duplicates. *)
 From Coq Require Import List ZArith NArith Bool.
 Import ListNotations.
-Require Import RV.Model.C03_Ledger RV.Proof.C03_Ledger.
+Require Import RV.Model.C03_Ledger RV.Proof.C03_Ledger RV.Proof.C03_NF.
 Open Scope Z_scope.
 
 (* every single operation moves "everything that exists" of a fungible resource (vaults + buckets in
@@ -33,6 +33,25 @@ Theorem C03_step_supply : forall s o s' evs r t',
   t' = supply_z r s + minted r evs - burned r evs.
 Proof. exact step_supply. Qed.
 
+(* non-fungibles: for every accepted op list between two transaction boundaries, per resource:
+   ids_after = (ids_before ∪ minted) \ burned, minted ∩ ids_before = ∅, no id minted twice, no id in
+   two vaults afterwards, the multiset equation, and the invariant holds again *)
+Theorem C03_tx_conservation_nf : forall ops s s' evs,
+  NFInv s -> run s ops = Ok (s', evs) -> at_rest s = true -> at_rest s' = true ->
+  forall r,
+    let before := vault_ids r s in let after := vault_ids r s' in
+    let m := minted_ids r evs in let b := burned_ids r evs in
+    (forall x, In x after <-> (In x before \/ In x m) /\ ~ In x b)
+    /\ (forall x, In x m -> ~ In x before)
+    /\ NoDup m /\ NoDup after
+    /\ (forall x, occ x after = occ x before + occ x m - occ x b)
+    /\ NFInv s'.
+Proof. exact tx_conservation_nf. Qed.
+
+(* the invariant is inductive: it holds for the empty ledger and every accepted operation keeps it *)
+Theorem C03_nf_invariant : NFInv empty /\ forall s o s' evs, NFInv s -> step s o = Ok (s', evs) -> NFInv s'.
+Proof. split; [exact NFInv_empty | exact step_NFInv]. Qed.
+
 (* with free fee credit the statement is false (the property excludes it for this reason) *)
 Theorem C03_free_credit_counterexample :
   exists s' evs, step fc_state (OPayFee fc_params) = Ok (s', evs)
@@ -47,6 +66,16 @@ Proof. exact demo_runs. Qed.
 Example C03_nonvacuous_ok : Forall op_ok demo_ops /\ at_rest demo_state = true.
 Proof. split; [exact demo_ok | reflexivity]. Qed.
 
+Definition nf_demo_ops : list op :=
+  [ OCreateN 7%N true (Some ([1%N; 2%N; 3%N], 100%N)); OCreateVault 7%N 20%N; OVaultPut 20%N 100%N;
+    OMintN 7%N [4%N] 101%N; OVaultTakeIds 20%N [2%N] 102%N; OBucketPut 101%N 102%N; OBurn 101%N ].
+Example C03_nf_nonvacuous : exists s' evs, run empty nf_demo_ops = Ok (s', evs) /\ at_rest s' = true
+  /\ vault_ids 7%N s' = [1%N; 3%N] /\ minted_ids 7%N evs = [1%N; 2%N; 3%N; 4%N] /\ burned_ids 7%N evs = [4%N; 2%N]
+  /\ supply_of 7%N s' = Some (2 * 10 ^ 18).
+Proof. eexists. eexists. split; [vm_compute; reflexivity|]. repeat split; vm_compute; reflexivity. Qed.
+
+Print Assumptions C03_tx_conservation_nf.
+Print Assumptions C03_nf_invariant.
 Print Assumptions C03_step_conservation_fungible.
 Print Assumptions C03_tx_conservation_fungible_partial.
 Print Assumptions C03_step_supply.
